@@ -1,5 +1,5 @@
 (* C19 - Generated fuzzing inputs are always memory-safe, valid request values. *)
-From Ctap Require Import Base Schema Utf8 Typed Arb Inst Tables Limits WireP Utf8P ArbP FnShapes Shapes ObShapeArb Deps ObDeps.
+From Ctap Require Import Base Schema Utf8 Typed Arb Inst Tables Limits WireP Utf8P ArbP FnShapes Shapes ObShapeArb Deps ObDeps ObShapeArbRequests.
 Local Open Scope string_scope.
 Local Open Scope Z_scope.
 
@@ -68,8 +68,12 @@ Theorem c19_modelled_functions_unchanged_arb : shapes_hold fn_shapes shapes_arb 
 Proof. exact generated_shapes_arb. Qed.
 
 (* the third-party crates the model represents by hand are pinned at the versions it was written against *)
-Theorem c19_modelled_dependencies_pinned : deps_hold lock_versions cargo_deps = true.
+Theorem c19_modelled_dependencies_pinned : deps_hold repo_lock_present lock_versions harness_lock_versions cargo_deps = true.
 Proof. exact generated_deps. Qed.
+
+(* lookup tables, accessors, builders and further generators this property rests on *)
+Theorem c19_modelled_functions_unchanged_arb_requests : shapes_hold fn_shapes shapes_arb_requests = true.
+Proof. exact generated_shapes_arb_requests. Qed.
 
 Eval vm_compute in "ASSUMPTIONS c19_bytes". Print Assumptions c19_bytes.
 Eval vm_compute in "ASSUMPTIONS c19_byte_array". Print Assumptions c19_byte_array.
@@ -84,3 +88,4 @@ Eval vm_compute in "ASSUMPTIONS c19_hmac_secret_input". Print Assumptions c19_hm
 Eval vm_compute in "ASSUMPTIONS c19_str_ref". Print Assumptions c19_str_ref.
 Eval vm_compute in "ASSUMPTIONS c19_descriptor_ref". Print Assumptions c19_descriptor_ref.
 Eval vm_compute in "ASSUMPTIONS c19_modelled_dependencies_pinned". Print Assumptions c19_modelled_dependencies_pinned.
+Eval vm_compute in "ASSUMPTIONS c19_modelled_functions_unchanged_arb_requests". Print Assumptions c19_modelled_functions_unchanged_arb_requests.
